@@ -13,7 +13,9 @@ func (rt *runtime) cmplEvaluateNodeProgram(node *nodeProgram, eval bool) Value {
 	// belongs to the code being instantiated, not to the (possibly shared)
 	// execution context of a direct eval.
 	savedEval := rt.scope.eval
-	if eval {
+	hostEval := rt.hostEval
+	rt.hostEval = false // consumed: eval() calls made by the program are real eval code
+	if eval && !hostEval {
 		rt.scope.eval = true
 	}
 	rt.cmplFunctionDeclaration(node.functionList)
